@@ -113,9 +113,36 @@ pub fn exercise(b: &Board, depth: u32) -> u64 {
     n
 }
 
+/// the text entry point (`str::parse::<Board>()`, what the CLI argument and the WASM constructor
+/// call) on the same input: no panic, and the same answer as the byte parser
+fn c06_text_entry(input: &[u8], bytes_result: &Result<Board, chess_movegen::fen::ParseFenError>) -> Vec<Divergence> {
+    let Ok(text) = std::str::from_utf8(input) else { return vec![] };
+    match std::panic::catch_unwind(|| text.parse::<Board>()) {
+        Err(_) => vec![Divergence::new("parser-panics", format!("{text:?}.parse::<Board>() panicked (0x{})", hex(input)))],
+        Ok(r) => {
+            let same = match (&r, bytes_result) {
+                (Ok(a), Ok(b)) => a == b && a.zobrist() == b.zobrist() && a.half_move_clock() == b.half_move_clock() && a.full_move_clock() == b.full_move_clock(),
+                (Err(_), Err(_)) => true,
+                _ => false,
+            };
+            if same {
+                vec![]
+            } else {
+                vec![Divergence::new("text-entry-point-disagrees-with-byte-parser", format!("{text:?}: parse::<Board>() ok={} but parse_fen ok={}", r.is_ok(), bytes_result.is_ok()))]
+            }
+        }
+    }
+}
+
 pub fn c06_case(input: &[u8]) -> Vec<Divergence> {
     set_case(|| json!({"property": "C06", "case": {"kind": "bytes", "hex": hex(input)}}).to_string());
     let r = std::panic::catch_unwind(|| chess_movegen::fen::parse_fen(input));
+    if let Ok(res) = &r {
+        let d = c06_text_entry(input, res);
+        if !d.is_empty() {
+            return d;
+        }
+    }
     match r {
         Err(_) => vec![Divergence::new("parser-panics", format!("parse_fen(0x{} = {:?}) panicked", hex(input), String::from_utf8_lossy(input)))],
         Ok(Err(e)) => {
@@ -267,6 +294,37 @@ pub fn run_c06(args: &Args) -> i32 {
             run_case(&s[..k], &report, &c);
         }
     });
+    // 1b. multi-byte characters (2, 3 and 4 UTF-8 bytes) substituted for 1..=4 bytes and inserted at
+    // every byte offset of every seed, alone and behind short ASCII prefixes: the text entry point
+    // must survive input whose character boundaries do not fall where ASCII would put them
+    seeds.par_iter().for_each(|seed| {
+        let s = seed.as_bytes();
+        for ch in ["\u{e9}", "\u{20ac}", "\u{2654}", "\u{1f600}"] {
+            let cb = ch.as_bytes();
+            for i in 0..=s.len() {
+                for del in 0..=4usize {
+                    if i + del > s.len() {
+                        break;
+                    }
+                    let mut buf = Vec::with_capacity(s.len() + 4);
+                    buf.extend_from_slice(&s[..i]);
+                    buf.extend_from_slice(cb);
+                    buf.extend_from_slice(&s[i + del..]);
+                    run_case(&buf, &report, &c);
+                }
+            }
+        }
+    });
+    for ch in ["\u{e9}", "\u{20ac}", "\u{2654}", "\u{1f600}"] {
+        for pre in ["", "a", "ab", "abc", "abcd", "fen", "fen ", "8/8", "w ", "- "] {
+            for post in ["", "y", " w - - 0 1"] {
+                let t = format!("{pre}{ch}{post}");
+                run_case(t.as_bytes(), &report, &c);
+                let t2 = format!("{pre}{ch}{ch}{post}");
+                run_case(t2.as_bytes(), &report, &c);
+            }
+        }
+    }
     let single = c.parses.load(Ordering::Relaxed);
     eprintln!("[C06] single edits done: {single} parses, {:.1}s", report.start.elapsed().as_secs_f64());
 
@@ -539,7 +597,7 @@ pub fn run_c06(args: &Args) -> i32 {
         json!({
             "evaluations": parses + reach_n + builds,
             "distinct_nontrivial": accepted + built_ok,
-            "rule": "seeds = every catalogue FEN + field-shape seeds; (1) all single edits with all 256 byte values (substitute, delete, insert), every prefix; (2) all double edits over a 28-symbol alphabet holding one representative per parser match arm (quick: 30 richest seeds, thorough: all seeds); (3) every string of length <= 5 (thorough 6) over that alphabet; (4) complete product of valid/invalid spellings per field on 4 placements, the complete domain of the castling-rights validation (every occupant of e1 e8 a1 h1 a8 h8 out of {empty, either king, either rook, queen} x 15 rights subsets x both turns) and of the en-passant validation (marker file x every occupancy of the six squares of that file on ranks 2-7 out of {empty, either pawn, either knight} x both turns); (5) canonical FEN of every position reachable within depth 2 (thorough 3) of every root, and of every member of the small-material families (kings + one piece, pawn pushes, promotion pins, en-passant and castling families, both colours), must be accepted and parse to that position; (6) builder call sequences. Non-trivial = inputs the parser/builder ACCEPTED (the C06 invariants are evaluated on each of them); rejected inputs only exercise totality.",
+            "rule": "seeds = every catalogue FEN + field-shape seeds; (1) all single edits with all 256 byte values (substitute, delete, insert), every prefix; 2-, 3- and 4-byte UTF-8 characters substituted for 0-4 bytes at every offset of every seed and behind short prefixes; every valid-UTF-8 input also goes through str::parse::<Board>() (the CLI / WASM entry), which must not panic and must answer like the byte parser; (2) all double edits over a 28-symbol alphabet holding one representative per parser match arm (quick: 30 richest seeds, thorough: all seeds); (3) every string of length <= 5 (thorough 6) over that alphabet; (4) complete product of valid/invalid spellings per field on 4 placements, the complete domain of the castling-rights validation (every occupant of e1 e8 a1 h1 a8 h8 out of {empty, either king, either rook, queen} x 15 rights subsets x both turns) and of the en-passant validation (marker file x every occupancy of the six squares of that file on ranks 2-7 out of {empty, either pawn, either knight} x both turns); (5) canonical FEN of every position reachable within depth 2 (thorough 3) of every root, and of every member of the small-material families (kings + one piece, pawn pushes, promotion pins, en-passant and castling families, both colours), must be accepted and parse to that position; (6) builder call sequences, the short ones followed by four re-uses of the same builder (turn / en-passant setters only, then build() again) compared with a fresh builder. Non-trivial = inputs the parser/builder ACCEPTED (the C06 invariants are evaluated on each of them); rejected inputs only exercise totality.",
             "seeds": seeds.len(),
             "single_edit_parses": single, "double_edit_parses": double, "short_string_parses": short, "field_product_parses": prod,
             "parses_repeated_in_trapping_build": trapped_parses,
@@ -624,7 +682,35 @@ pub fn builder_case(seq: &BuildSeq) -> (bool, Vec<Divergence>) {
         b.turn(real_color(seq.turn));
         b.enpassant(seq.ep.map(|f| File::from_u8(f).unwrap()));
         let _ = place_errors;
-        (b.build(), model, d)
+        let first = b.build();
+        // the same builder used again: only the setters that leave the placement alone are called,
+        // then build() once more - it must answer like a fresh builder given the final settings
+        if seq.places.len() <= 1 {
+            let alt_ep = if seq.ep == Some(3) { None } else { Some(3u8) };
+            for (t2, e2) in [(seq.turn.flip(), seq.ep), (seq.turn, alt_ep), (seq.turn.flip(), alt_ep), (seq.turn, seq.ep)] {
+                b.turn(real_color(t2));
+                b.enpassant(e2.map(|f| File::from_u8(f).unwrap()));
+                let again = b.build();
+                let mut fresh = Board::builder();
+                for sq in 0..64u8 {
+                    if let Some((c, p)) = model[sq as usize] {
+                        let _ = fresh.place(pos(sq), real_color(c), real_piece(p));
+                    }
+                }
+                fresh.turn(real_color(t2));
+                fresh.enpassant(e2.map(|f| File::from_u8(f).unwrap()));
+                let want = fresh.build();
+                let same = match (&again, &want) {
+                    (Ok(a), Ok(w)) => a == w && a.zobrist() == w.zobrist() && format!("{a:?}") == format!("{w:?}"),
+                    (Err(_), Err(_)) => true,
+                    _ => false,
+                };
+                if !same {
+                    d.push(Divergence::new("reused-builder-differs-from-fresh-builder", format!("{seq:?}, then turn({t2:?}) enpassant({e2:?}) build(): accepted={} but a fresh builder: accepted={}", again.is_ok(), want.is_ok())));
+                }
+            }
+        }
+        (first, model, d)
     });
     match r {
         Err(_) => (false, vec![Divergence::new("builder-panics", format!("{seq:?}"))]),
